@@ -390,6 +390,7 @@ func (fc *fnCtx) inline(st *State, fr *frame, site string, callee *ssa.Function,
 	}
 	nf := fc.newFrame(callee, fr)
 	savedNames := st.names
+	st.outer = append(st.outer, savedNames)
 	st.names = map[string]Val{}
 	all := args
 	if recv != nil {
@@ -417,11 +418,17 @@ func (fc *fnCtx) inline(st *State, fr *frame, site string, callee *ssa.Function,
 	st.trace = append(st.trace, "{"+shortKey(nf.key))
 	nf.ret = func(st *State, res []Val) {
 		st.names = copyNames(savedNames)
+		if len(st.outer) > 0 {
+			st.outer = st.outer[:len(st.outer)-1]
+		}
 		st.trace = append(st.trace, "}")
 		k(st, packResults(res))
 	}
 	nf.pan = func(st *State, why string) {
 		st.names = copyNames(savedNames)
+		if len(st.outer) > 0 {
+			st.outer = st.outer[:len(st.outer)-1]
+		}
 		fr.pan(st, why)
 	}
 	fc.execBlock(st, nf, callee.Blocks[0], nil)
